@@ -61,9 +61,13 @@ def new (raw : Bool) (s : St) (name : Option String) : St × Svc :=
   | none => ({ s with nextId := nid, nextSche := s.nextSche + 1, reg := (lk, s.nextSche) :: s.reg,
                       svcs := s.svcs ++ [⟨key, s.nextSche⟩] }, ⟨key, s.nextSche⟩)
 
-/-- `RunService.Stop` -/
+/-- `RunService.Stop`: stops the scheduler and removes the registration before it returns (synchronously) -/
 def stop (s : St) (v : Svc) : St :=
   { s with stopped := v.sche :: s.stopped, reg := s.reg.filter (fun e => e.1 ≠ v.key) }
+
+/-- the variant in which the registration is only removed later (by the exiting loop goroutine):
+what `Stop` leaves behind when it returns -/
+def stopDeferred (s : St) (v : Svc) : St := { s with stopped := v.sche :: s.stopped }
 
 inductive Op | new (name : Option String) | stop (i : Nat)
   deriving Repr
